@@ -37,6 +37,7 @@ class Ctx:
         self.side = []          # global side conditions (assumptions)
         self.side_notes = []    # human readable list of assumptions
         self.recips = {}        # ast-id of monic denominator -> (mon, var)
+        self.recip_den = {}     # ast-id of reciprocal var -> monic denom.
         self.pc = []            # path condition of the current run
         self.prefix = []        # decisions to replay
         self.trace = []         # decisions taken in the current run
@@ -88,7 +89,9 @@ class Ctx:
         if hit is None:
             var = self.fresh('r')
             self.recips[key] = (mon, var)
+            self.recip_den[var.get_id()] = mon
             self.keep.append(mon)
+            self.keep.append(var)
             self.side.append(mon*var == 1)
             self._feas = None
         else:
